@@ -424,13 +424,19 @@ int lha_ext_header_decode(LHAFileHeader *header,
 
 	htype = ext_header_for_num(num);
 
+	// Unknown header types, and headers that are too short to be
+	// valid, are skipped. This is not an error.
+
 	if (htype == NULL) {
-		return 0;
+		return 1;
 	}
 
 	if (data_len < htype->min_len) {
-		return 0;
+		return 1;
 	}
+
+	// The decoder only fails if the decoded value could not be
+	// stored (memory allocation failure).
 
 	return htype->decoder(header, data, data_len);
 }
